@@ -1,11 +1,11 @@
 \* EXPECTED VIOLATION StoredIsChain: mutant consumer that stores without Store's head check (the duplicate emission then lands twice)
 CONSTANTS HA = 2 HB = 0 ForkAt = 0 Start = 0 MaxIter = 3 WithCancel = FALSE
   Peers = {"honest"}
-  Verify = TRUE Retry = TRUE CheckedStore = FALSE CtxAwareSends = TRUE
+  Verify = TRUE Retry = TRUE CheckedStore = FALSE CtxAwareSends = TRUE FieldsChecked = TRUE
   ClassOf <- MCIdentity EmptyA <- MCEmptyMix EmptyB <- MCNoEmpty
 INIT Init
 NEXT Next
 VIEW view
-INVARIANTS TypeOK StoredIsChain OnlyVerified EmittedVerified PrefixOfA NoSkip NoLeak ExitOnlyAfterCancel
+INVARIANTS TypeOK StoredIsChain OnlyVerified EmittedVerified PrefixOfA NoSkip NoLeak ExitOnlyAfterCancel NoCrash
 PROPERTIES StoreExtends
 CHECK_DEADLOCK FALSE
